@@ -73,7 +73,7 @@ Lemma should_close_pooled s cn :
   proto_should_close s cn = false ->
   c_buf cn = [] /\ c_htail cn = [] /\ pay_open s cn = false.
 Proof.
-  unfold proto_should_close. intros H. apply should_close_false in H as (_ & H2 & _ & _ & H5 & H6).
+  unfold proto_should_close. intros H. apply should_close_false in H as (_ & H2 & _ & _ & H5 & H6 & _).
   repeat split; [now apply nonempty_false|now apply nonempty_false|exact H2].
 Qed.
 
